@@ -129,13 +129,15 @@ func dedupIterator(reps [][]smp, src, f string) (chunkenc.Iterator, error) {
 	return it, nil
 }
 
-// drain reads the rest of the stream with Next.
+// drain reads the rest of the stream with Next. A well-formed merge cannot yield more samples
+// than the replicas hold; reading stops at `limit` (more than twice that), and the truncated
+// stream is judged like any other (it necessarily repeats a timestamp or invents a sample).
 func drain(it chunkenc.Iterator, out [][]int64, limit int) ([][]int64, error) {
 	for it.Next() != chunkenc.ValNone {
 		t, v := it.At()
 		out = append(out, pair(t, v))
 		if len(out) > limit {
-			return out, fmt.Errorf("iterator yields more samples (%d) than twice what all replicas hold", len(out))
+			return out, nil
 		}
 	}
 	return out, it.Err()
@@ -154,7 +156,7 @@ func observe(c vt.Case) vt.Event {
 // harness stops executing further cases (they would only pile up spinning goroutines).
 var stuck int
 
-const watchdog = 120 * time.Second
+const watchdog = 60 * time.Second
 
 func guarded(run func() vt.Event, empty vt.Event) vt.Event {
 	if stuck >= 3 {
